@@ -1,7 +1,7 @@
 (* C17 - GeoCollection operations are exact filters and element-wise maps.  Pinned theorems only. *)
 From Coq Require Import ZArith List Bool Reals Lra.
 From Flocq Require Import Core BinarySingleNaN.
-Require Import GV.FloatBase GV.FloatLemmas GV.AngleM GV.GeonumM GV.CollM GV.OrderProofs GV.CollProofs.
+Require Import GV.FloatBase GV.FloatLemmas GV.AngleM GV.GeonumM GV.CollM GV.OrderProofs GV.CollProofs GV.AngleProofs GV.NewProofs GV.CtorProofs GV.GeonumProofs GV.DistValue GV.SumProofs.
 Import ListNotations.
 Open Scope R_scope.
 
@@ -55,3 +55,15 @@ Theorem C17_conversions : forall v : list geonum,
   clen v = Z.of_nat (length v) /\ (cis_empty v = true <-> v = []).
 Proof. exact conversions_identity. Qed.
 Print Assumptions C17_conversions.
+
+(* total_magnitude IS the sum of the member magnitudes: for non-negative magnitudes and a finite result the
+   recursive summation error is at most sum * ((1+2^-53)^n - 1) + n 2^-1075 (1+2^-53)^n, n the length *)
+Theorem C17_total_value : forall c, fin (total_magnitude c) -> Forall (fun g => 0 <= R_ (mag g)) c ->
+  Rabs (R_ (total_magnitude c) - rsum c)
+    <= rsum c * ((1 + eps) ^ length c - 1) + INR (length c) * bpow radix2 (-1075) * ((1 + eps) ^ length c).
+Proof. exact total_value. Qed.
+Print Assumptions C17_total_value.
+
+Theorem C17_rsum_def : rsum [] = 0 /\ (forall g t, rsum (g :: t) = R_ (mag g) + rsum t) /\ eps = / 9007199254740992.
+Proof. split; [reflexivity|]. split; [reflexivity|reflexivity]. Qed.
+Print Assumptions C17_rsum_def.
